@@ -2,6 +2,7 @@ package harness
 
 import (
 	"fmt"
+	"math"
 	"sort"
 	"time"
 
@@ -145,6 +146,21 @@ func hooksC03() Hooks {
 					}
 				}
 			}
+			// "any maxCount of at least 1": also the ones that mean "everything"
+			offs := []int64{klevdb.OffsetOldest, r.Obs.I64(0, r.M.Next)}
+			if n := len(r.M.Live); n > 0 {
+				offs = append(offs, r.M.Live[r.Obs.Intn(n)].Off)
+			}
+			for _, off := range offs {
+				for _, mc := range []int64{math.MaxInt64, 1 << 40, math.MaxInt32} {
+					next, msgs, err := consumeG(r.L, off, mc)
+					if c, msg := checkConsume(r.M, off, mc, next, msgs, err); c != "" {
+						r.violate("Consume|huge-maxCount|"+c, "%s", msg)
+						return
+					}
+				}
+			}
+			r.probe("huge_maxcount_checked")
 			cursorWalk(r, mcs[r.Obs.Intn(len(mcs))])
 			if len(r.M.Live) > 0 && int64(len(r.M.Live)) < r.M.Next {
 				r.probe("holes_checked")
